@@ -18,7 +18,7 @@ import sys
 
 sys.path.insert(0, '/verif')
 
-from vb import check, exprenv, exprreplay, paneldraws, par, rt, tlc
+from vb import flagship, check, exprenv, exprreplay, paneldraws, par, rt, tlc
 from vb.rt import close
 from fractions import Fraction as F
 
@@ -242,6 +242,24 @@ def body(chk: check.Check):
         for m in val['mismatches']:
             chk.violation('inside:value', {**dict(formula=desc, ops=rec['ops']), **m}, match=dict(kind='value', features=exprenv.features(rec['ops'], rec['root'], len(mpool.leaves))))
     chk.extra['formulas_with_the_operator_inside'] = len(inside)
+    # mixed-logit formulas on cross-sectional data (6-14 operators), proposed from outside, valued by the specification
+    fpool = flagship.pool_cross()
+    props = flagship.proposals(chk.seed + 10, 20 if quick else 120, False)
+    fres = tlc.run('MCExprGen', fpool.cfg(0, ['EmitInv']), extra_modules={'MCExprGen': fpool.module(start=props)}, workers='auto', timeout=1800)
+    chk.add_tlc(f'ExprLang: {len(props)} proposed mixed-logit formulas on cross-sectional data', fres)
+    if len(fres.emitted) < len(props) // 2:
+        raise tlc.MachineryError(f'only {len(fres.emitted)} of {len(props)} proposed formulas were accepted by the specification')
+    exprreplay.init(fpool)
+    for rec, (st, val) in zip(fres.emitted, par.pmap(exprreplay.replay_values, fres.emitted, chunk=2, timeout=900)):
+        desc = exprreplay.describe(rec)
+        chk.replayed += 1
+        if st != 'ok':
+            chk.violation(f'mixed:{st}', dict(formula=desc, error=val), match=dict(kind='exception'))
+            continue
+        chk.count(('mixed', desc), val['n'])
+        for m in val['mismatches']:
+            chk.violation('mixed:value', {**dict(formula=desc), **m}, match=dict(kind='value', features=[]))
+    chk.extra['mixed_logit_formulas'] = len(fres.emitted)
     # histories on one data set: the generator of a type is replaced between evaluations
     rcfg = ('SPECIFICATION Spec\nCONSTANTS\n Types = {"TA", "TB"}\n Codes = {1, 7}\n Rs = {2, 3}\n XVals <- G_X\n MaxSteps = %d\n'
             'INVARIANT Memoryless\nINVARIANT EmitInv\n' % (4 if quick else 5))
